@@ -80,6 +80,9 @@ func histPool() []poolCall {
 		{fn: FnApplyIndent, a: deep14, patch: `[{"op":"add","path":"/k","value":[]}]`, indent: " "},
 		{fn: FnApplyIndent, a: deep14, patch: `[{"op":"add","path":"/k","value":[]}]`, indent: "\t\t\t"},
 		{fn: FnApply, a: d1, patch: failTest},
+		// the whole document replaced by a value of the patch, changed, and then copied from "" into
+		// itself: whatever the root node shares with the Patch shows on the second application
+		{fn: FnApply, a: d1, patch: `[{"op":"add","path":"","value":{"k":[1]}},{"op":"add","path":"/k/-","value":2},{"op":"copy","from":"","path":"/self"},{"op":"test","path":"/self/k/1","value":2}]`},
 		{fn: FnApply, a: d1, patch: rootNull},
 		{fn: FnApply, a: `{"a":`, patch: ops},
 		// malformed texts of exactly the length of well-formed ones used above (a caller that reuses
